@@ -103,6 +103,23 @@ func c17DirMissing() *c17Inst {
 	return i
 }
 
+// c17MixedShard: a hand-written directory whose child shard has another prefix
+// width than the root (a listing alone refuses it, lookups and Length walk it):
+// what a call answers must not depend on what another goroutine cached first.
+func c17MixedShard() *c17Inst {
+	s := store.New()
+	root, _ := gen.HandShards()["mixed 256>16 short-names"].Build(s)
+	ls := lsFor(s)
+	rn, err := loadRoot(ls, root)
+	if err != nil {
+		panic(err)
+	}
+	// a name whose hash selects bucket 0xA5 of the root: the lookup descends
+	// into (and caches) the narrower child
+	probe := gen.NameWithHash(0xA5<<56 | 0x3C96E17B2D4F80)
+	return &c17Inst{s: s, ls: ls, root: root, rootN: rn, names: []string{probe, "zz", "!"}, via: "unixfs"}
+}
+
 func c17File() *c17Inst {
 	c := fileCase{Writer: "ours", W: 2, Chunker: "size-3", L: 13, K: 3, Pattern: "distinct"}
 	s, root, _, err := c.build()
@@ -301,6 +318,10 @@ func c17Scenarios(quick bool) []c17Scenario {
 		{Name: "S13-unavailable-child-shard-iterate-and-lookup", Threads: 2, Bounds: b2, setup: c17DirMissing,
 			bodies: func(i *c17Inst, n datamodel.Node) []func() string {
 				return []func() string{iterBody(n), lookupBody(n, i.names[2])}
+			}},
+		{Name: "S14-mixed-width-shard-iterate-lookup-length", Threads: 3, Bounds: b3small, setup: c17MixedShard,
+			bodies: func(i *c17Inst, n datamodel.Node) []func() string {
+				return []func() string{iterBody(n), lookupBody(n, i.names[0]), lengthBody(n)}
 			}},
 		{Name: "S6-preloaded-file-two-readers", Threads: 2, Bounds: b2, setup: func() *c17Inst { i := c17File(); i.via = "unixfs-preload"; return i },
 			bodies: func(i *c17Inst, n datamodel.Node) []func() string {
